@@ -361,7 +361,9 @@ class TaggedSeries(object):
   @classmethod
   def parse(cls, path):
     # if path is in openmetrics format: metric{tag="value",...}
-    if path[-2:] == '"}' and '{' in path:
+    # (';' cannot occur in an openmetrics series, so a path containing one is a
+    # carbon path whose last tag value happens to end with "} )
+    if path[-2:] == '"}' and '{' in path and ';' not in path:
       return cls.parse_openmetrics(path)
 
     # path is a carbon path with optional tags: metric;tag=value;...
